@@ -196,7 +196,7 @@ def run(ctx):
             # rewrite the matcher tree here, and the score of a returned document must not depend on that
             h = model.gen_staged_history(rng)
             ctx.count("c09.staged_cases")
-        fb = rng.choice([False, False, True, True, 0.1, 0.7])
+        fb = rng.random() < 0.5      # exactly representable boosts only: see the note in vf.model.gen_doc
         wname, wobj, ref = gen_weighting(rng)
         mname = wname.split("(")[0]
         wb = {"history": {"commits": [len(c) for c in h["commits"]], "deletes": len(h["deletes"]),
